@@ -411,11 +411,19 @@ def _ch11_obj(cls, f, p):
     import AcraNetwork.IRIG106.Chapter11 as ch11
     o = ADAPTERS[cls].ctor()
     for k, v in f.items():
+        if k == "_via_decode":
+            continue
         if k == "ptptime":
             o.ptptime = ch11.PTPTime(v["seconds"], v["nanoseconds"])
         else:
             setattr(o, k, v)
     o.payload = p
+    if f.get("_via_decode"):
+        # the object a reader would hold: decoded from the packet's own bytes (checksum / time-format flag bits
+        # and all), then handed to a writer
+        q = ADAPTERS[cls].ctor()
+        q.unpack(o.pack())
+        return q
     return o
 
 def check_ch11_layout(args):
@@ -501,6 +509,21 @@ def ch11_oracle_cases(ctx, cls="Chapter11"):
 def ptp_valid(rng):
     return {"seconds": str(rng.boundary(32)), "nanoseconds": str(rng.boundary(32))}
 
+def _ptp_compensating(rng):
+    """pairs that differ in BOTH fields in a way that keeps some derived quantity equal (total nanoseconds, the
+    float seconds+ns/1e9, the sum of the two fields): equal such pairs must still encode identically"""
+    out = []
+    for _ in range(3):
+        s0 = rng.choice([0, 1, 1700000000, 2 ** 31, rng.randrange(0, 2 ** 32 - 2)])
+        ns = rng.randrange(0, 2 ** 32 - 10 ** 9)
+        out.append(({"seconds": str(s0 + 1), "nanoseconds": str(ns)},
+                    {"seconds": str(s0), "nanoseconds": str(ns + 10 ** 9)}, "seconds+nanoseconds (same total ns)"))
+        d = rng.randrange(1, 1000)
+        if ns >= d:
+            out.append(({"seconds": str(s0 + d), "nanoseconds": str(ns - d)},
+                        {"seconds": str(s0), "nanoseconds": str(ns)}, "seconds+nanoseconds (same field sum)"))
+    return out
+
 def rtc_valid(rng):
     return {"count": str(rng.boundary(48))}
 
@@ -557,7 +580,7 @@ ORACLES = {"udp_layout": _w0(check_udp_layout), "ch11_layout": _w0(check_ch11_la
 CLASSGEN = {
     "Chapter10UDP": ClassGen("Chapter10UDP", udp_valid, length_fields=[(5, 3, "big")], alt=udp_alt),
     "Chapter11": ClassGen("Chapter11", ch11_valid, length_fields=[(4, 4, "little"), (8, 4, "little")], alt=ch11_alt),
-    "PTPTime": ClassGen("PTPTime", ptp_valid),
+    "PTPTime": ClassGen("PTPTime", ptp_valid, extra_twins=lambda rng: _ptp_compensating(rng)),
     "RTCTime": ClassGen("RTCTime", rtc_valid),
 }
 
@@ -678,7 +701,8 @@ ORACLES["checksum_helpers"] = check_checksum_helpers
 # =================================================================================== C12 / C08: files
 SYNC = b"\x25\xeb"
 
-JUNK_LENGTHS = [0, 1, 2, 3, 4, 5, 6, 7, 8, 9, 10, 15, 16, 17, 23, 24, 25, 31, 32, 33, 40] + list(range(0, 41))
+JUNK_LENGTHS = [0, 1, 2, 3, 4, 5, 6, 7, 8, 9, 10, 15, 16, 17, 23, 24, 25, 31, 32, 33, 40] + list(range(0, 41)) + \
+    [63, 64, 65, 127, 128, 129, 255, 256, 257, 511, 512, 513, 1023, 1024, 1025, 1026, 1538, 2051]
 
 def junk(rng, n, tail25=False):
     """n bytes that do not contain the sync pattern 25 EB (optionally ending in 0x25); 0x25 not followed
@@ -715,7 +739,10 @@ def file_items(rng, n_pkts=None, with_junk=True):
             f.update({"filler": rng.choice([b"", b"\xff", b"\xff\xff\xff"]), "packetlen": rng.choice([0, 24, 28, 1000]),
                       "datalen": rng.randrange(0, 50)})
             items.append(("obj", f, p))
-        elif c < 0.5:
+        elif c < 0.4:
+            items.append(("obj", f, p))
+        elif c < 0.55 and len(p) % 4 == 0:
+            f["_via_decode"] = True
             items.append(("obj", f, p))
         else:
             b = _ch11_obj("Chapter11", f, p).pack()
@@ -727,7 +754,7 @@ def item_texts(items, cls="Chapter11"):
     out = []
     for it in items:
         if it[0] == "obj":
-            f = dict(it[1]); f["payload"] = it[2]
+            f = dict(it[1]); f.pop("_via_decode", None); f["payload"] = it[2]
             out.append("%s{%s}" % (cls, ",".join("%s=%s" % (k, _txt(v)) for k, v in f.items())))
         else:
             out.append(hexb(it[1]))
@@ -931,6 +958,11 @@ def oracles_C08(ctx, hints):
     fails, n = [], 0
     rng = ctx.rng
     cases = [bytes.fromhex("25eb000000000000"), bytes.fromhex("25eb00000000000025eb000008000000")]
+    # many places that look like a packet start whose length field points past the end of the file (and
+    # length fields 1..7): the iterator must stop, without recursion proportional to the file size
+    for ln in (0x80000001, 0x7fffffff, 0xffffffff, 40000):
+        cases.append((bytes.fromhex("25eb0100") + ln.to_bytes(4, "little")) * 1500)
+    cases.append(bytes.fromhex("25eb") * 6000)
     cases += [raw_file(rng, rng.randrange(0, 300)) for _ in range(ctx.scale(300, 10000))]
     for d in cases:
         args = {"data": d.hex()}
